@@ -53,7 +53,8 @@ fn check_solar_year(ctx: &Ctx, civ: &Civil, y: i32, loc: &mut Local) {
     }
     Err(m) => ctx.violation("solar_year_lists", key.clone(), format!("panics: {}", m), rp.clone()),
   }
-  // month -> days
+  // month -> days; the position of each listed date in the year = its day-of-year; the lists sum to the year's day count
+  let mut pos: usize = 0;
   for m in 1..=12u8 {
     loc.transitions += 1;
     let want: Vec<Ymd> = {
@@ -62,18 +63,31 @@ fn check_solar_year(ctx: &Ctx, civ: &Civil, y: i32, loc: &mut Local) {
     };
     let r = guard(|| {
       let sm = SolarMonth::from_ym(yy, m as usize);
-      (sm.get_days().iter().map(|d| ymd_of(d)).collect::<Vec<_>>(), sm.get_day_count())
+      let days = sm.get_days();
+      (days.iter().map(|d| ymd_of(d)).collect::<Vec<_>>(), sm.get_day_count(), days.iter().map(|d| d.get_index_in_year()).collect::<Vec<_>>())
     });
     let mkey = format!("{:04}-{:02}", y, m);
     let mrp = vec!["smonth".to_string(), y.to_string(), m.to_string()];
     match r {
-      Ok((days, count)) => {
+      Ok((days, count, doy)) => {
+        let want_doy: Vec<usize> = (pos..pos + days.len()).collect();
+        if doy != want_doy {
+          let k = doy.iter().zip(want_doy.iter()).position(|(a, b)| a != b).unwrap_or(0);
+          ctx.violation("day_of_year", format!("{:04}-{:02}", y, m), format!("listed date #{} of the month ({}) reports day-of-year {}, its position in the year's lists is {}", k, days.get(k).map(|d| fmt_ymd(*d)).unwrap_or_default(), doy.get(k).cloned().unwrap_or(0), want_doy.get(k).cloned().unwrap_or(0)), mrp.clone());
+        }
+        pos += days.len();
         if days != want || count != want.len() {
           ctx.violation("solar_month_days", mkey, format!("get_days() lists {} days (first {:?}, last {:?}), get_day_count()={}; the month has {} days {}..{}", days.len(), days.first().map(|d| fmt_ymd(*d)), days.last().map(|d| fmt_ymd(*d)), count, want.len(), fmt_ymd(want[0]), fmt_ymd(*want.last().unwrap())), mrp);
         }
       }
       Err(e) => ctx.violation("solar_month_days", mkey, format!("get_days() panics: {}; the month has {} days", e, want.len()), mrp),
     }
+  }
+  loc.transitions += 1;
+  match guard(|| SolarYear::from_year(yy).get_day_count()) {
+    Ok(c) if c == pos => {}
+    Ok(c) => ctx.violation("day_of_year", key.clone(), format!("SolarYear::get_day_count()={} but the 12 month lists hold {} dates", c, pos), rp.clone()),
+    Err(e) => ctx.violation("day_of_year", key.clone(), format!("panics: {}", e), rp.clone()),
   }
   loc.traces += 1;
 }
